@@ -5,7 +5,10 @@ package goja
 // White-box accessors for verification property C20 (RegExp engine / fast-path independence,
 // UTF-16 exact indices).  Add-only; compiled only with -tags verif.
 
-import "fmt"
+import (
+	"fmt"
+	"regexp"
+)
 
 // VerifC20Engine compiles (pattern, flags) exactly as the RegExp constructor does for a Go-string
 // pattern and reports which engine was selected: "re2" (Go regexp, linear time) or "regexp2"
@@ -156,4 +159,82 @@ func VerifC20Units(v Value) ([]uint16, error) {
 		out[i] = s.CharAt(i)
 	}
 	return out, nil
+}
+
+// ---- added in the re-sync round (pure per-engine finders) ----
+
+// VerifC20Find2 is the backtracking engine alone: regexp2Wrapper.findSubmatchIndex(s, start) on the
+// (lazily created) regexp2 twin of v's pattern, whatever engine the pattern normally uses.
+func VerifC20Find2(v Value, s Value, start int) (indexes []int, groups []string, ok bool) {
+	rx := verifC20Rx(v)
+	str, isStr := s.(String)
+	if rx == nil || !isStr {
+		return nil, nil, false
+	}
+	p := rx.pattern.clone()
+	p.createRegexp2()
+	res := p.regexp2Wrapper.findSubmatchIndex(str, start, p.unicode, false)
+	return append([]int(nil), res.indexes...), append([]string(nil), res.groups...), true
+}
+
+// VerifC20HasRE2 reports whether v's pattern was translated for the linear-time engine.
+func VerifC20HasRE2(v Value) bool {
+	rx := verifC20Rx(v)
+	return rx != nil && rx.pattern.regexpWrapper != nil
+}
+
+// VerifC20FindRE2 is the linear-time engine alone at an arbitrary start position: the leftmost match
+// of the translated pattern at or after `start`, with the whole subject as context.  Go's regexp cannot
+// start in the middle of its input, so the search runs `\A(?s:.{k}.*?)(P)` (lazy prefix ⇒ leftmost-first
+// gives the earliest start ≥ k, then P's own preferences) and drops the wrapper group.  The subject is
+// presented exactly as regexpWrapper.findSubmatchIndex presents it (ASCII string / UTF-16 units as
+// runes / code points through buildPosMap).  ok=false: no linear-time twin, or start splits a pair in
+// unicode mode, or the wrapped pattern does not compile.
+func VerifC20FindRE2(v Value, s Value, start int) (indexes []int, groups []string, ok bool) {
+	rx := verifC20Rx(v)
+	str, isStr := s.(String)
+	if rx == nil || !isStr || rx.pattern.regexpWrapper == nil {
+		return nil, nil, false
+	}
+	inner := (*regexp.Regexp)(rx.pattern.regexpWrapper)
+	a, u := devirtualizeString(str)
+	k := start
+	var posMap []int
+	var runes []rune
+	if u != nil && rx.pattern.unicode {
+		var split bool
+		posMap, runes, k, split = buildPosMap(&lenientUtf16Decoder{utf16Reader: u.utf16Reader()}, u.Length(), start)
+		if split {
+			return nil, nil, false
+		}
+	}
+	if k > 1000 {
+		return nil, nil, false
+	}
+	wrapped, err := regexp.Compile(fmt.Sprintf(`\A(?s:.{%d}.*?)(%s)`, k, inner.String()))
+	if err != nil {
+		return nil, nil, false
+	}
+	var idx []int
+	switch {
+	case u == nil:
+		idx = wrapped.FindStringSubmatchIndex(string(a))
+	case rx.pattern.unicode:
+		idx = wrapped.FindReaderSubmatchIndex(&arrayRuneReader{runes: runes})
+		for i, item := range idx {
+			if item >= 0 {
+				idx[i] = posMap[item]
+			}
+		}
+	default:
+		idx = wrapped.FindReaderSubmatchIndex(u.utf16RuneReader())
+	}
+	names := wrapped.SubexpNames()
+	if len(idx) >= 4 {
+		indexes = append([]int(nil), idx[2:]...)
+	}
+	if len(names) >= 2 {
+		groups = append([]string{""}, names[2:]...)
+	}
+	return indexes, groups, true
 }
